@@ -3047,6 +3047,7 @@ class QuicConnection:
             and not self._version_negotiated_compatible
         ):
             self._version = self._crypto_packet_version
+            self._cryptos[tls.Epoch.INITIAL] = self._cryptos_initial[self._version]
             self._version_negotiated_compatible = True
             self._logger.info(
                 "Negotiated protocol version %s", pretty_protocol_version(self._version)
